@@ -28,6 +28,7 @@ import ast
 import json
 import os
 import os.path
+import shutil
 import tempfile
 from pathlib import Path
 
@@ -955,7 +956,59 @@ def prepare(ctx):
     return keys
 
 
+def cross_device_probe(ctx):
+    """Directed: an explicit tmpdir on ANOTHER file system than the target (a RAM disk for the scratch data, the archive on disk):
+    the round trip returns the bytes written and nothing remains in either place.  Skipped (and recorded) when the machine offers
+    no second writable file system."""
+    import subprocess
+    cands = [d for d in ("/dev/shm", "/run/shm", "/var/tmp") if os.path.isdir(d) and os.access(d, os.W_OK)]
+    here = tempfile.mkdtemp(prefix="verif_c12_xdev_")
+    other = next((d for d in cands if os.stat(d).st_dev != os.stat(here).st_dev), None)
+    ctx.cov["cross_device_tmpdir"] = other or "no second writable file system"
+    if other is None:
+        shutil.rmtree(here, ignore_errors=True)
+        return
+    scratch = tempfile.mkdtemp(prefix="verif_c12_xdev_", dir=other)
+    code = (
+        "import os, sys, json\n"
+        "from typhon.files.utils import compress, decompress\n"
+        "here, scratch = sys.argv[1], sys.argv[2]\n"
+        "out = {}\n"
+        "for fmt in ('gz', 'bz2', 'xz', 'zip'):\n"
+        "    name = os.path.join(here, 'orbit.dat.' + fmt)\n"
+        "    data = (fmt * 5000).encode()\n"
+        "    try:\n"
+        "        with compress(name, tmpdir=scratch) as f:\n"
+        "            open(f, 'wb').write(data)\n"
+        "        with decompress(name, tmpdir=scratch) as f:\n"
+        "            back = open(f, 'rb').read()\n"
+        "        out[fmt] = 'ok' if back == data else 'other bytes'\n"
+        "    except BaseException as e:\n"
+        "        out[fmt] = 'ERR %s: %s' % (type(e).__name__, str(e)[:100])\n"
+        "out['left_in_tmpdir'] = sorted(os.listdir(scratch))\n"
+        "print(json.dumps(out))\n")
+    try:
+        e = dict(os.environ)
+        e.update({"PYTHONPATH": str(core.REPO), "PYTHONWARNINGS": "ignore"})
+        pr = subprocess.run([core.PY, "-W", "ignore", "-c", code, here, scratch], capture_output=True, text=True, env=e, timeout=300)
+        ctx.cov["evaluations"] += 1
+        try:
+            got = json.loads(pr.stdout.strip().splitlines()[-1])
+        except Exception:  # noqa
+            ctx.fail("correspondence", f"cross-device probe gave no result: {pr.stderr[-300:]}", signature="cross-device-run")
+            return
+        badf = {k_: v_ for k_, v_ in got.items() if k_ != "left_in_tmpdir" and v_ != "ok"}
+        if badf or got["left_in_tmpdir"]:
+            ctx.fail("failing-input", f"compress / decompress with tmpdir on another file system ({other}) than the target: {badf or ''} "
+                     f"{'left in tmpdir: ' + str(got['left_in_tmpdir']) if got['left_in_tmpdir'] else ''}", case={"tmpdir_on": other, "observed": got},
+                     signature="cross-device-tmpdir")
+    finally:
+        shutil.rmtree(here, ignore_errors=True)
+        shutil.rmtree(scratch, ignore_errors=True)
+
+
 def run(ctx):
+    cross_device_probe(ctx)
     keys = prepare(ctx)
     ctx.prove("Props/C12.v")
     core.coq_build([GENFILE, core.THEORIES / "Model" / "C12_compress.v"])
